@@ -27,6 +27,18 @@ pub fn long_cfg() -> CaseCfg {
     }
 }
 
+/// small trees in which about one node in fifteen carries a tower of 14-43 unary operators (a node of
+/// the flat and of the deep form stores up to 16 unary operators inline)
+pub fn tower_cfg() -> CaseCfg {
+    CaseCfg {
+        table: TableCfg::default(),
+        tree: TreeCfg { max_operands: 6, lit_pct: 40, unary_pct: 15, tower_pct: 7, ..TreeCfg::default() },
+        render: RenderCfg::default(),
+        max_vars: 4,
+        weird_pct: 5,
+    }
+}
+
 /// Classification shared by several properties: counts the generator's measured distribution and
 /// returns whether the case is non-trivial by the C01 rule.
 pub fn classify(case: &TermCase, st: &mut Stats) -> bool {
@@ -127,6 +139,23 @@ fn term_small(tape: &[u32], st: &mut Stats) -> CaseResult {
 }
 fn term_long(tape: &[u32], st: &mut Stats) -> CaseResult {
     run_case(tape, st, &long_cfg())
+}
+fn term_towers(tape: &[u32], st: &mut Stats) -> CaseResult {
+    let mut t = Tape::new(tape);
+    let case = gen_term_case(&mut t, &tower_cfg());
+    let f = &case.facts;
+    st.class_if(f.max_unary_chain > 16, "unary composition longer than 16");
+    st.class_if(f.max_unary_chain > 32, "unary composition longer than 32");
+    st.class_if(f.max_unary_chain > 16 && f.operands >= 2, "tower inside a binary operation");
+    if f.max_unary_chain > 16 {
+        st.nontrivial(&format!("{}|{}", case.text, crate::term::describe_table(&case.table)));
+        if st.want_sample() {
+            st.sample(case.describe());
+        }
+    }
+    check_flat(&case, "flat", true)?;
+    check_flat(&case, "flat_wo_compile", false)?;
+    Ok(())
 }
 
 /// a table and a literal matcher defined with the crate's macros `ops_factory!` and
@@ -258,6 +287,11 @@ pub fn def() -> PropDef {
                 name: "term_long",
                 rule: "as term_small with 1-200 operands (left-deep, right-deep and random shapes), up to 20 variables; non-trivial additionally if >64 operands",
                 kind: Kind::Tape { len: 4000, quick: 3_000, thorough: 150_000, f: term_long },
+            },
+            SubCheck {
+                name: "term_towers",
+                rule: "as term_small with 1-6 operands where about one node in fifteen carries a tower of 14-43 unary operators (a node stores 16 inline); non-trivial = a composition of more than 16 unary operators; distinct by text+table",
+                kind: Kind::Tape { len: 900, quick: 12_000, thorough: 600_000, f: term_towers },
             },
             SubCheck {
                 name: "macro_factory",
